@@ -3,6 +3,8 @@
 PROPS = {
     "C08": {
         "design_ref": "DESIGN.md §3 C08",
+        # slowest quick harness ~100 s on an idle 16-core machine: margin for loaded hosts
+        "tiers": {"quick": {"harness_timeout_s": 600}},
         "functions_encoded": [
             "ff::prime_field::{Fp31,Fp32BitPrime,Fp61BitPrime}::{add,sub,mul,neg,add_assign,sub_assign,mul_assign,eq,ct_eq,"
             "try_from,truncate_from,from_random_u128,serialize,deserialize,as_u128}",
